@@ -68,6 +68,9 @@ type Engine struct {
 	AssertLabels map[string]*AssertStat
 	ForkSites map[string]int
 	Outside   map[string]int // paths cut because they leave the modelled fragment
+	RecordEvents bool          // C14: record sync/memory events on shared objects
+	SharedLimit  int           // objects with id < SharedLimit are shared between the goroutines
+	Traces       [][]SyncEvent // one per completed path
 	hardConds map[int]bool // conditions of deliberate case splits (choices, concretisations): never merged away
 }
 
@@ -103,6 +106,7 @@ type State struct {
 	pc      []*Term
 	globals map[*ssa.Global]int
 	natives map[uintptr]int // native pointer -> object id (imports)
+	events  []SyncEvent     // C14: synchronisation and shared-memory events of this path
 	done    bool
 	retVal  Value // return value of the root function
 }
@@ -148,6 +152,7 @@ func (e *Engine) Clone(st *State) *State {
 	for k, v := range st.globals {
 		n.globals[k] = v
 	}
+	n.events = append([]SyncEvent(nil), st.events...)
 	n.natives = make(map[uintptr]int, len(st.natives))
 	for k, v := range st.natives {
 		n.natives[k] = v
@@ -316,11 +321,13 @@ func (e *Engine) setPath(st *State, v Value, path []PathEl, nv Value) Value {
 }
 
 func (e *Engine) load(st *State, p PtrV) Value {
+	e.recordAccess(st, "read", p.Obj, p.Path)
 	o := e.obj(st, p.Obj)
 	return e.getPath(st, o.Val, p.Path)
 }
 
 func (e *Engine) store(st *State, p PtrV, v Value) {
+	e.recordAccess(st, "write", p.Obj, p.Path)
 	o := e.wobj(st, p.Obj)
 	o.Val = e.setPath(st, o.Val, p.Path, v)
 }
@@ -583,3 +590,45 @@ func (e *Engine) fresh(prefix string) string {
 
 // NewState creates an empty state.
 func (e *Engine) NewState() *State { return e.newState() }
+
+// SyncEvent is one event of a path: lock/unlock/rlock/runlock on a mutex, or a
+// read/write of a shared location (object id and first path element).
+type SyncEvent struct {
+	Kind string // lock unlock rlock runlock read write
+	Loc  string
+	At   string
+}
+
+func (e *Engine) recordAccess(st *State, kind string, obj int, path []PathEl) {
+	if !e.RecordEvents || obj < 0 || obj >= e.SharedLimit {
+		return
+	}
+	loc := fmt.Sprintf("o%d", obj)
+	if len(path) > 0 && path[0].T == nil {
+		loc += fmt.Sprintf(".%d", path[0].I)
+	}
+	at := ""
+	if len(st.frames) > 0 {
+		at = st.top().fn.Name()
+	}
+	// collapse repeats
+	if n := len(st.events); n > 0 && st.events[n-1].Kind == kind && st.events[n-1].Loc == loc {
+		return
+	}
+	st.events = append(st.events, SyncEvent{kind, loc, at})
+}
+
+// RecordSync records a mutex / pseudo-mutex operation.
+func (e *Engine) RecordSync(st *State, kind string, v Value) {
+	if !e.RecordEvents {
+		return
+	}
+	loc := "?"
+	if p, ok := v.(PtrV); ok {
+		loc = fmt.Sprintf("m%d", p.Obj)
+		for _, el := range p.Path {
+			loc += fmt.Sprintf(".%d", el.I)
+		}
+	}
+	st.events = append(st.events, SyncEvent{kind, loc, ""})
+}
